@@ -30,7 +30,9 @@ import (
 	"github.com/prometheus/alertmanager/config"
 	"github.com/prometheus/alertmanager/dispatch"
 	"github.com/prometheus/alertmanager/eventrecorder"
+	"github.com/prometheus/alertmanager/featurecontrol"
 	"github.com/prometheus/alertmanager/marker"
+	"github.com/prometheus/alertmanager/matcher/compat"
 	"github.com/prometheus/alertmanager/notify"
 	"github.com/prometheus/alertmanager/provider"
 	"github.com/prometheus/alertmanager/provider/mem"
@@ -119,7 +121,11 @@ func (r *RSpec) y() *yRoute {
 	o := &yRoute{Receiver: r.Receiver, GroupBy: r.GroupBy, Match: kvMap(r.Match), MatchRE: kvMap(r.MatchRE),
 		Mute: r.Mute, Active: r.Active, Continue: r.Continue, GW: dur(r.GW), GI: dur(r.GI), RI: dur(r.RI), Labels: kvMap(r.Labels)}
 	for _, m := range r.Matchers {
-		o.Matchers = append(o.Matchers, fmt.Sprintf("%s%s%q", m.N, m.T, m.V))
+		if classicName.MatchString(m.N) {
+			o.Matchers = append(o.Matchers, fmt.Sprintf("%s%s%q", m.N, m.T, m.V))
+		} else {
+			o.Matchers = append(o.Matchers, fmt.Sprintf("%q%s%q", m.N, m.T, m.V))
+		}
 	}
 	for _, c := range r.Routes {
 		o.Routes = append(o.Routes, c.y())
@@ -180,10 +186,13 @@ func errCode(err error) string {
 // ---------- generator ----------
 
 var (
-	lnames    = []string{"a", "b", "c"}
-	lvalues   = []string{"x", "y", "xy", "", "xz", "zy", "x$", "yx"}
-	eqValues  = []string{"x", "x", "y", "y", "xy", ""}
-	rePats    = []string{"x", "y", "x|y", "x.*", ".*", ".+", "[xy]", "y?", "", "x+y", "(x|y)+",
+	lnames = []string{"a", "b", "c"}
+	// names that are label names only in UTF-8 mode (the binary's and amtool's default): usable in `matchers:` (quoted)
+	// and in alerts, not in the deprecated match / match_re maps
+	unames   = []string{"k8s.ns", "région"}
+	lvalues  = []string{"x", "y", "xy", "", "xz", "zy", "x$", "yx"}
+	eqValues = []string{"x", "x", "y", "y", "xy", ""}
+	rePats   = []string{"x", "y", "x|y", "x.*", ".*", ".+", "[xy]", "y?", "", "x+y", "(x|y)+",
 		// anchors written by the user (around a top-level alternation, on one side only, escaped): a regexp matcher is
 		// matched against the WHOLE value whatever its text looks like
 		"^x|y$", "^x\\$", "^x|y", "x|y$", "^(x|y)$", "^x$|^y$", "^x.*|y$"}
@@ -214,7 +223,11 @@ func genRoute(r *vh.Rand, g genOpts, depth int, budget *int, root bool) *RSpec {
 		// matchers: 0 (catch-all child), 1 or 2; all four kinds plus the two legacy forms
 		for k := vh.Pick(r, []int{0, 1, 1, 1, 1, 2, 2}); k > 0; k-- {
 			name := vh.Pick(r, lnames)
-			switch r.Intn(8) {
+			kind := r.Intn(8)
+			if kind >= 2 && r.Chance(1, 5) {
+				name = vh.Pick(r, unames)
+			}
+			switch kind {
 			case 0:
 				if !hasKey(n.Match, name) {
 					n.Match = append(n.Match, KV{name, vh.Pick(r, eqValues)})
@@ -378,6 +391,9 @@ func genLabelSets(r *vh.Rand, n int) []map[string]string {
 		}
 		if r.Chance(1, 6) {
 			ls["alertname"] = "An"
+		}
+		if r.Chance(1, 4) {
+			ls[vh.Pick(r, unames)] = vh.Pick(r, []string{"x", "y", "xy"})
 		}
 		if !seen[lsKey(ls)] {
 			seen[lsKey(ls)] = true
@@ -780,6 +796,8 @@ func runDispatcher(t *testing.T, route *dispatch.Route, c *Case, maxWait, maxInt
 
 // ---------- direct oracle: the declarative rule, on the configuration as written ----------
 
+var classicName = regexp.MustCompile(`^[a-zA-Z_][a-zA-Z0-9_]*$`)
+
 var reCache = map[string]*regexp.Regexp{}
 
 func fullMatch(pat, v string) bool {
@@ -1173,6 +1191,14 @@ func runCase(t *testing.T, run *vh.Run, c *Case, withDispatcher bool) {
 func TestCheck(t *testing.T) {
 	env := vh.GetEnv()
 	run := vh.NewRun(env, "AM.Run.C07Run")
+	{
+		// the parser / label-name mode the real binary and amtool select by default (UTF-8 with classic fallback)
+		ff, err := featurecontrol.NewFlags(promslog.NewNopLogger(), "")
+		if err != nil {
+			t.Fatal(err)
+		}
+		compat.InitFromFlags(promslog.NewNopLogger(), ff)
+	}
 	// app engine: the REAL application wiring (package app) in real time, in its own process; reports through run.
 	// true = the replay file held an app-engine case and has been handled.
 	if appsys.Part(t, env, run, "C07") {
